@@ -4,5 +4,4 @@ CONSTANTS
   MaxCalls = 1
 INVARIANT NoStuck
 INVARIANT ExclusiveIsExclusive
-PROPERTY EveryCallReturns
 CHECK_DEADLOCK FALSE
